@@ -8,7 +8,7 @@ CONFIG = dict(
              'Pipeline.HibernationDistance 1..6 x Burndown.HibernationThreshold {0, 1, an arena size met at a Hibernate call, that size + 1, the largest '
              'size met, 2^30} x in memory / on disk (sweep); faults (dirfault: hibernation directory that does not exist, whose parent is a regular '
              'file, chmod 0555; tamper: an extra pipeline item deployed in the same pipeline removes every *-hercules.bin file or truncates it to 0, 1, '
-             'half, size-1 or the same size when its Consume is called while some branch sleeps on disk, at the first such moment or after skipping '
+             'a quarter, half, size-9, -4, -2, -1 or the same size when its Consume is called while some branch sleeps on disk, at the first such moment or after skipping '
              'up to 3).  Three quarters of the runs deploy a delegating wrapper around the real BurndownAnalysis that records every Hibernate/Boot '
              'call (arena size before/after, temp-file name and length, error), the rest runs the bare item.  Every case records the digest of the '
              'complete canonical result text (all matrices, ownership, people dictionary) or the error/panic, the plan Run executed (its own '
